@@ -32,6 +32,20 @@ class Ctx:
         """fresh universally quantified real in the claim (existential witness of a counterexample)"""
         if s.conc: return Rat(s.model.get(name, Fraction(0)))
         v = z3.Real('free_' + name); s.freevars[name] = v; return Rat(v)
+    def sincos(s, x):
+        """(sin x, cos x) as the executor sees them for the same argument term"""
+        if s.conc:
+            import math
+            f = float(R(x).frac()); return Rat(Fraction(math.sin(f))), Rat(Fraction(math.cos(f)))
+        return s.S.sincos(s.st, x)
+    def sqrt(s, x):
+        x = R(x)
+        if s.conc:
+            import math
+            return Rat(Fraction(math.sqrt(max(0.0, float(x.frac())))))
+        s.S.fresh += 1; y = z3.Real('csqrt_%d' % s.S.fresh)
+        s.extra += [y >= 0, y * y * x.d == x.n]
+        return Rat(y)
     def assume(s, f):
         """side constraint on free variables: the claim is (assumptions => claim)"""
         s.extra.append(f)
